@@ -6,6 +6,10 @@ b  one protocol, seven event drivers (fixed, rk45, dop853 x generic/Hamiltonian,
 c  one bisection, five refiners: unrolled under event-value tapes against the reference bisection
 d  Hamiltonian and generic drivers agree (both equal the same reference; shared with C17.c)
 e  the plane-crossing wrapper
+
+b (added)  the symplectic event driver advances the carried extended state (Q,P,X,Y); caches of compiled event functions are keyed by
+           code, closure and defaults (hv.memo)
+c-derivative  the derivative fed to the symplectic Hermite interpolant is (dH/dP, -dH/dQ) (C16.d, re-filed)
 """
 from __future__ import annotations
 
